@@ -1667,6 +1667,11 @@ func stepLeader(r *raft, m *pb.Message) error {
 		}
 		if leadTransferee == r.id {
 			r.logger.Debugf("%x is already leader. Ignored transferring leadership to self", r.id)
+			if lastLeadTransferee != None {
+				// The transfer that was just aborted may have made us drop an
+				// automatic leave-joint proposal.
+				r.maybeInitiateAutoLeave()
+			}
 			return nil
 		}
 		// Transfer leadership to third party.
